@@ -145,6 +145,133 @@ var zNMap StrMap = StrMap{"k": 1}
 var zNCh IntChan = make(IntChan, 2)
 var zNFn IntFn = func(x int) int { return x }
 
+// named types defined from named types (two levels), one per class
+type MyInt2 MyInt
+type Temp2 Temp
+type Label2 Label
+type Flag2 Flag
+type IntSlice2 IntSlice
+type IntArr2 IntArr
+type StrMap2 StrMap
+type IntChan2 IntChan
+type IntFn2 IntFn
+type Point3 Point
+type PInt *int
+type PInt2 PInt
+type Shape2 Shape
+type RecvChan <-chan int
+type RecvChan2 RecvChan
+type SendChan chan<- int
+type SendChan2 SendChan
+
+var zN2Int MyInt2 = 3
+var zN2Float Temp2 = 1.5
+var zN2Str Label2 = "l2"
+var zN2Bool Flag2 = true
+var zN2Sl IntSlice2 = IntSlice2{1, 2, 3}
+var zN2Arr IntArr2 = IntArr2{1, 2, 3}
+var zN2Map StrMap2 = StrMap2(zNMap)
+var zN2Ch IntChan2 = make(IntChan2, 2)
+var zN2Fn IntFn2 = func(x int) int { return x }
+var zN2St Point3 = Point3{1, 2, "z"}
+var zNPtr PInt = &zInt
+var zN2Ptr PInt2 = &zInt
+var zN2If Shape2 = Rect{1, 1}
+var zNRo RecvChan = zCh
+var zN2Ro RecvChan2 = zCh
+var zNSo SendChan = zCh
+var zN2So SendChan2 = zCh
+
+// an interface with several parameters and results, and concrete types whose method differs from it
+// at exactly one position (impossible type assertions, non-implementing values)
+type Sig interface {
+	Do(a int, b string, c float64) (int, string)
+}
+type SigOK struct{}
+
+func (SigOK) Do(a int, b string, c float64) (int, string) { return a, b }
+
+type SigP0 struct{}
+
+func (SigP0) Do(a string, b string, c float64) (int, string) { return 0, b }
+
+type SigP1 struct{}
+
+func (SigP1) Do(a int, b int, c float64) (int, string) { return a, "" }
+
+type SigP2 struct{}
+
+func (SigP2) Do(a int, b string, c int) (int, string) { return a, b }
+
+type SigR0 struct{}
+
+func (SigR0) Do(a int, b string, c float64) (string, string) { return b, b }
+
+type SigR1 struct{}
+
+func (SigR1) Do(a int, b string, c float64) (int, int) { return a, a }
+
+type SigFewP struct{}
+
+func (SigFewP) Do(a int, b string) (int, string) { return a, b }
+
+type SigFewR struct{}
+
+func (SigFewR) Do(a int, b string, c float64) int { return a }
+
+type SigPtr struct{}
+
+func (*SigPtr) Do(a int, b string, c float64) (int, string) { return a, b }
+
+type SigNamedP0 struct{}
+
+func (SigNamedP0) Do(a MyInt, b string, c float64) (int, string) { return 0, b }
+
+type SigNamedR1 struct{}
+
+func (SigNamedR1) Do(a int, b string, c float64) (int, Label) { return a, "" }
+
+type SigOther struct{}
+
+func (SigOther) Done(a int, b string, c float64) (int, string) { return a, b }
+
+var zSig Sig = SigOK{}
+
+type Sig2 interface {
+	A(x int) int
+	B(s string) string
+}
+type S2OK struct{}
+
+func (S2OK) A(x int) int       { return x }
+func (S2OK) B(s string) string { return s }
+
+type S2AP struct{}
+
+func (S2AP) A(x string) int    { return 0 }
+func (S2AP) B(s string) string { return s }
+
+type S2AR struct{}
+
+func (S2AR) A(x int) string    { return "" }
+func (S2AR) B(s string) string { return s }
+
+type S2BP struct{}
+
+func (S2BP) A(x int) int    { return x }
+func (S2BP) B(s int) string { return "" }
+
+type S2BR struct{}
+
+func (S2BR) A(x int) int    { return x }
+func (S2BR) B(s string) int { return 0 }
+
+type S2NoB struct{}
+
+func (S2NoB) A(x int) int { return x }
+
+var zSig2 Sig2 = S2OK{}
+
 func sink(v ...interface{}) {}
 
 // pool end
